@@ -359,6 +359,18 @@ def check_patch(ck: Check):
                 (o[0] == 1 or o[2] == want_after) and (o[0] != 0 or o[2] == w0)
             ok_inside = (not o[1]) or all(o[1][0][t] == 2 for t in [0, 1] + extras)
             ok_closed = o[3] == (0 if o[0] == 0 else 1)
+            valid = all(w0[t] in (0, 1, 2, 5, 6) for t in [0, 1] + extras) and w0[0] != 2
+            ok_result = (o[0] in (3, 4)) == valid and (not valid or o[0] == (4 if br else 3))
+            ok_inside = ok_inside and (not valid or bool(o[1]))
+            if not ok_result and first:
+                first = False
+                ck.violation(
+                    f"patch(extra_targets={extras}) over locations {[KIND_NAMES[k] for k in w0]} body_raises={br}: result code {o[0]} "
+                    f"(0 refused,1 import error,2 assert,3 ok,4 body raised) but all targets valid={valid}; this was patch() call number "
+                    f"{specs.index((kinds, extras, br, nested)) + 1} in one process (patch() must be enterable again after any earlier exit)",
+                    {"kind": "patch-history", "world": [KIND_NAMES[k] for k in w0], "extras": extras, "body_raises": br,
+                     "earlier_calls": [{"world": [KIND_NAMES[k] for k in cc[0]], "extras": cc[1]} for cc in cases[:specs.index((kinds, extras, br, nested))][-5:]],
+                     "observed": o})
             if not (ok_after and ok_inside and ok_closed) and first:
                 first = False
                 names = [KIND_NAMES[k] for k in w0]
